@@ -231,7 +231,8 @@ func rtt(s script) []string {
 // histories run in a child process with an address-space limit, and a dead child is the observation.
 func dangerous(cookies []string) bool {
 	for _, c := range cookies {
-		if strings.Contains(c, "\xdd") || strings.Contains(c, "\xdf") || strings.Contains(c, "\xdc\xff") {
+		// only the top-level array header sizes an allocation
+		if strings.HasPrefix(c, "\xdd") {
 			return true
 		}
 	}
